@@ -63,10 +63,10 @@ public:
      */
     auto insert(const key_type& key, value_type value, allow a = allow::insert_or_update) -> bool
     {
-        auto now         = std::chrono::steady_clock::now();
-        auto expire_time = now + m_ttl;
+        auto now = std::chrono::steady_clock::now();
 
         std::lock_guard guard{m_lock};
+        auto            expire_time = now + m_ttl;
         return do_insert_update(key, std::move(value), now, expire_time, a);
     }
 
@@ -84,12 +84,12 @@ public:
     template<typename range_type>
     auto insert_range(range_type&& key_value_range, allow a = allow::insert_or_update) -> size_t
     {
-        auto   now         = std::chrono::steady_clock::now();
-        auto   expire_time = now + m_ttl;
+        auto   now = std::chrono::steady_clock::now();
         size_t inserted{0};
 
         {
             std::lock_guard guard{m_lock};
+            auto            expire_time = now + m_ttl;
             for (auto& [key, value] : key_value_range)
             {
                 if (do_insert_update(key, std::move(value), now, expire_time, a))
@@ -240,7 +240,11 @@ public:
      * TTL time.
      * @param ttl The new uniform TTL value to apply to all new elements.
      */
-    auto update_ttl(std::chrono::milliseconds ttl) -> void { m_ttl = ttl; }
+    auto update_ttl(std::chrono::milliseconds ttl) -> void
+    {
+        std::lock_guard guard{m_lock};
+        m_ttl = ttl;
+    }
 
     /**
      * Trims the TTL list of items an expunges all expired elements.  This could be useful to use
